@@ -108,11 +108,15 @@ func (r *testRes) snapshot() []reqRec {
 	return append([]reqRec(nil), r.log...)
 }
 
-const margin = 4 * time.Millisecond
+const margin = 5 * time.Millisecond
+
+// a timer is looked at only procSlack after its deadline (Go timers fire late under load)
+const procSlack = 2 * margin
 
 type liveRes struct {
 	k       int
 	ch      <-chan struct{}
+	spawn   time.Duration
 	lastReq time.Duration
 	att     int
 	seen    int // number of requests for this resolver consumed from the log
@@ -176,68 +180,118 @@ func runHistory(cfg ccfg, ops []hop) (line string, ok bool, why string) {
 		}
 		return
 	}
-	var creations []time.Duration // times of operations that may have created an entry (for expirations)
+	lastAdd := map[int]time.Duration{} // key -> time of the last add
+	lastOp := map[int]time.Duration{}  // key -> time of the last add / get / check
+	var creations []time.Duration      // times of operations that may have created an entry (for expirations)
 	var live []*liveRes
 	var evs []string
 	spawns := 0
 
-	// processTimers attributes the requests logged so far to the live resolvers and emits the
-	// timer events that are due (deadline at least `margin` in the past).
+	attributed := 0          // requests of the log accounted for: one per spawn, one per "requested" timer
+	chanKey := map[int]int{} // channel label -> key
+
+	// processTimers emits the timer events that are due (deadline at least `margin` in the past):
+	// one ETimer group per call of the cache's resolver goroutines observed since the last look.
 	processTimers := func(now time.Duration) bool {
-		log := res.snapshot()
 		for {
-			// earliest due deadline among live resolvers
-			var r *liveRes
+			var due []*liveRes
 			for _, x := range live {
-				if x.lastReq+cfg.timeout+margin <= now && (r == nil || x.lastReq < r.lastReq) {
-					r = x
+				if x.k >= 0 && x.lastReq+cfg.timeout+procSlack <= now {
+					due = append(due, x)
 				}
 			}
-			if r == nil {
+			if len(due) == 0 {
 				return true
 			}
-			d := r.lastReq + cfg.timeout
-			// was the done channel closed before the timer (by an earlier operation)? then the
-			// goroutine took the done case: no check
-			closedBefore := false
-			for i, ch := range chans {
-				if ch == r.ch && chClosed[i] {
-					closedBefore = true
+			// a timer that may or may not have fired yet makes the next look ambiguous: come back later
+			for _, x := range live {
+				if d := x.lastReq + cfg.timeout; x.k >= 0 && d <= now+time.Millisecond && d+procSlack > now {
+					return true
 				}
 			}
-			if closedBefore {
-				r.lastReq = 1 << 60
-				r.k = -1
-				continue
-			}
-			// a request for this key logged after the deadline = the check said "go on"
-			requested := false
-			var at time.Duration
-			for i := range log {
-				if log[i].k == r.k && log[i].at >= d {
-					requested, at = true, log[i].at
-					break
+			sort.Slice(due, func(i, j int) bool { return due[i].lastReq < due[j].lastReq })
+			log := res.snapshot()
+			var tuples []string
+			var fired, silent []*liveRes
+			for _, r := range due {
+				d := r.lastReq + cfg.timeout
+				// done closed before the timer (by an earlier operation): the goroutine took the
+				// done case, no check
+				closedBefore := false
+				for i, ch := range chans {
+					if ch == r.ch && chClosed[i] {
+						closedBefore = true
+					}
 				}
-			}
-			if requested && at > d+margin {
-				why = fmt.Sprintf("timer late by %v", at-d)
-				return false
-			}
-			// the check must not be close to an expiration
-			for _, ct := range creations {
-				if diff := d - (ct + cfg.age); diff > -margin-margin/2 && diff < margin+margin/2 {
-					why = "timer near an expiration"
+				if closedBefore {
+					r.k = -1
+					continue
+				}
+				for _, ct := range creations {
+					if diff := d - (ct + cfg.age); diff > -margin-margin/2 && diff < margin+margin/2 {
+						why = "timer near an expiration"
+						return false
+					}
+				}
+				requested := false
+				var at time.Duration
+				for i := range log {
+					if log[i].k == r.k && log[i].at >= d {
+						requested, at = true, log[i].at
+						break
+					}
+				}
+				if requested && at > d+procSlack {
+					why = fmt.Sprintf("timer late by %v", at-d)
 					return false
+				}
+				tuples = append(tuples, fmt.Sprintf("(%d,%d,%d,%v)", us(d), r.k, r.att, requested))
+				fired = append(fired, r)
+				if requested {
+					attributed++
+					r.att++
+					r.lastReq = at
+					if at+cfg.timeout <= time.Since(start)+time.Millisecond {
+						why = "overslept a timer"
+						return false
+					}
+				} else {
+					silent = append(silent, r)
 				}
 			}
 			notified, closed := poll()
-			evs = append(evs, fmt.Sprintf("ETimer %d %d %d %v %s %s", us(d), r.k, r.att, requested, ilist(notified), ilist(closed)))
-			if requested {
-				r.att++
-				r.lastReq = at
-			} else {
-				r.lastReq = 1 << 60
+			// a stop without any effect is what the real code does when the entry was resolved,
+			// had already expired or was evicted.  If nothing the driver did explains that, the timer
+			// is probably just late: wait, and drop the history if the request or the notification
+			// shows up after all.
+			if len(notified) == 0 && len(closed) == 0 {
+				for _, r := range silent {
+					d := r.lastReq + cfg.timeout
+					la, okA := lastAdd[r.k]
+					lo, okO := lastOp[r.k]
+					resolved := okA && la >= r.spawn             // an add made the entry ready
+					expiredBefore := okO && lo > r.spawn+cfg.age // an earlier operation on k found it expired
+					if !resolved && !expiredBefore {
+						time.Sleep(45 * time.Millisecond)
+						for _, rec := range res.snapshot() {
+							if rec.k == r.k && rec.at >= d {
+								why = "late timer (request after a silent stop)"
+								return false
+							}
+						}
+						if nt, cl := poll(); len(nt) > 0 || len(cl) > 0 {
+							why = "late timer (event after a silent stop)"
+							return false
+						}
+						now = time.Since(start)
+					}
+				}
+			}
+			for _, r := range silent {
 				r.k = -1
+			}
+			if len(tuples) > 0 || len(notified) > 0 || len(closed) > 0 {
+				evs = append(evs, fmt.Sprintf("ETimer [%s] %s %s", strings.Join(tuples, ";"), ilist(notified), ilist(closed)))
 			}
 		}
 	}
@@ -253,7 +307,7 @@ func runHistory(cfg ccfg, ops []hop) (line string, ok bool, why string) {
 					continue
 				}
 				d := x.lastReq + cfg.timeout
-				if diff := now - d; diff > -margin && diff < margin+margin/2 {
+				if diff := now - d; diff > -margin && diff < procSlack+margin/2 {
 					return false
 				}
 				if creates {
@@ -276,12 +330,22 @@ func runHistory(cfg ccfg, ops []hop) (line string, ok bool, why string) {
 		var now time.Duration
 		for {
 			now = time.Since(start)
-			if now < planned {
-				time.Sleep(planned - now)
-				continue
-			}
 			if cfg.realTimers && !processTimers(now) {
 				return "", false, why
+			}
+			if now < planned {
+				wake := planned
+				if cfg.realTimers {
+					for _, x := range live {
+						if x.k >= 0 && x.lastReq+cfg.timeout+procSlack < wake {
+							wake = x.lastReq + cfg.timeout + procSlack
+						}
+					}
+				}
+				if wake > now {
+					time.Sleep(wake - now)
+				}
+				continue
 			}
 			if safe(now, o.kind == opAdd || o.kind == opGet) {
 				break
@@ -289,8 +353,13 @@ func runHistory(cfg ccfg, ops []hop) (line string, ok bool, why string) {
 			time.Sleep(time.Millisecond)
 		}
 		planned = now
-		// anything that happened while we slept and is not a timer event is unexpected; it is
-		// attributed to the operation below and will show up as a mismatch
+		// something asserted or closed while we slept that no timer event explains: a timer fired
+		// later than procSlack after its deadline and was recorded as silent; the history is dropped
+		if cfg.realTimers {
+			if nt, cl := poll(); len(nt) > 0 || len(cl) > 0 {
+				return "", false, "stray event before an operation (a timer fired late)"
+			}
+		}
 		tb := time.Since(start)
 		var ev string
 		panicked := false
@@ -302,6 +371,7 @@ func runHistory(cfg ccfg, ops []hop) (line string, ok bool, why string) {
 			}()
 			switch o.kind {
 			case opAdd:
+				lastAdd[o.k] = tb
 				c.Add(keyAddr(o.k), valLink(o.v))
 			case opGet:
 				var lr stack.LinkAddressResolver
@@ -319,11 +389,15 @@ func runHistory(cfg ccfg, ops []hop) (line string, ok bool, why string) {
 					r = 2
 					known := len(chans)
 					val = label(ch)
+					if val == known {
+						chanKey[val] = o.k
+					}
 					if val == known && o.res {
 						// a channel not seen before: a resolver goroutine was started for it
 						spawns++
+						attributed++
 						if cfg.realTimers {
-							live = append(live, &liveRes{k: o.k, ch: ch, lastReq: tb, att: 0})
+							live = append(live, &liveRes{k: o.k, ch: ch, spawn: tb, lastReq: tb, att: 0})
 						}
 					}
 				}
@@ -336,11 +410,14 @@ func runHistory(cfg ccfg, ops []hop) (line string, ok bool, why string) {
 			}
 		}()
 		ta := time.Since(start)
-		if ta-tb > margin/2 {
+		if ta-tb > margin/2 && cfg.age < 5*time.Second {
 			return "", false, fmt.Sprintf("operation took %v", ta-tb)
 		}
 		if o.kind == opAdd || o.kind == opGet {
 			creations = append(creations, tb)
+		}
+		if o.kind != opRemove {
+			lastOp[o.k] = tb
 		}
 		notified, closed := poll()
 		nt, cl := ilist(notified), ilist(closed)
@@ -367,7 +444,7 @@ func runHistory(cfg ccfg, ops []hop) (line string, ok bool, why string) {
 	}
 	// let the resolvers that are still alive finish (real timers), then a last look
 	if cfg.realTimers {
-		deadline := time.Since(start) + time.Duration(cfg.attempts+1)*cfg.timeout + 3*margin
+		deadline := time.Since(start) + time.Duration(cfg.attempts+1)*cfg.timeout + 2*procSlack
 		for time.Since(start) < deadline {
 			time.Sleep(2 * time.Millisecond)
 			if !processTimers(time.Since(start)) {
@@ -390,7 +467,16 @@ func runHistory(cfg ccfg, ops []hop) (line string, ok bool, why string) {
 		}
 		time.Sleep(time.Millisecond)
 	}
+	if cfg.realTimers {
+		time.Sleep(procSlack)
+		if nt, cl := poll(); len(nt) > 0 || len(cl) > 0 {
+			return "", false, "stray event at the end (a timer fired late)"
+		}
+	}
 	nreq := len(res.snapshot())
+	if cfg.realTimers && nreq != attributed {
+		return "", false, fmt.Sprintf("unattributed request (%d logged, %d explained): a timer fired later than the margin", nreq, attributed)
+	}
 	tmo := int64(0)
 	if cfg.realTimers {
 		tmo = us(cfg.timeout)
@@ -487,11 +573,11 @@ func genOverflow(r *gen.Rng) (ccfg, []hop) {
 
 // real timers: one or two resolutions with replies arriving or not, extra waiters, other traffic
 func genTimers(r *gen.Rng) (ccfg, []hop) {
-	cfg := ccfg{timeout: 20 * time.Millisecond, attempts: 1 + r.Intn(4), realTimers: true}
+	cfg := ccfg{timeout: 30 * time.Millisecond, attempts: 1 + r.Intn(4), realTimers: true}
 	if r.Intn(3) == 0 {
-		cfg.age = 50 * time.Millisecond // may expire while incomplete
+		cfg.age = 75 * time.Millisecond // expires while incomplete when attempts >= 3
 	} else {
-		cfg.age = 200 * time.Millisecond
+		cfg.age = 300 * time.Millisecond
 	}
 	k := 1 + r.Intn(40)
 	k2 := k + 1
@@ -503,7 +589,7 @@ func genTimers(r *gen.Rng) (ccfg, []hop) {
 	n := 2 + r.Intn(7)
 	replied := false
 	for i := 0; i < n; i++ {
-		o := hop{dtMs: []int{0, 7, 13, 26, 45}[r.Intn(5)], k: k, w: 1 + r.Intn(3)}
+		o := hop{dtMs: []int{0, 7, 13, 26, 45, 80}[r.Intn(6)], k: k, w: 1 + r.Intn(3)}
 		switch r.Intn(10) {
 		case 0, 1, 2, 3:
 			o.kind = opGet
@@ -575,7 +661,7 @@ func runCache(r *gen.Rng, nExplicit, nOverflow, nTimers, conc int) {
 	for i, l := range lines {
 		if l == "" {
 			dropped++
-			reasons[strings.Fields(whys[i]+" ?")[0]]++
+			reasons[strings.Fields(whys[i] + " ?")[0]]++
 			continue
 		}
 		fmt.Fprintln(out, l)
